@@ -254,6 +254,12 @@ def run_case(case, ctx, res):
     before = fp(ds)
     label = f"extract_{rk}({reg['mode']}, origin in {reg['origin_unit']}, size in {reg['size_unit']}, {'Array' if reg['as_array'] else 'Quantity'})"
     partial = judge(res, osy, ds, info, reg, label, before)
+    if not res.violations and rng.random() < 0.5:
+        # a second extraction from the same dataset with another region: the answer depends on the arguments only
+        rk2 = rk if ndim == 2 else ("box" if rng.random() < 0.5 else "sphere")
+        reg2 = draw_region(osy, rng, info, ndim, rk2)
+        res.count("second-extraction-same-dataset")
+        judge(res, osy, ds, info, reg2, f"second call extract_{rk2}({reg2['mode']}) on the same dataset after " + label, fp(ds))
     res.nontrivial = bool(partial) and (reg["origin_unit"] != info["mesh"]["unit"] or reg["size_unit"] != info["mesh"]["unit"])
     res.digest_src = {"layout": layout, "reg": {k: (v.tolist() if isinstance(v, np.ndarray) else v) for k, v in reg.items()}}
     res.sample = {"groups": layout, "region": {"kind": rk, "mode": reg["mode"], "origin_unit": reg["origin_unit"],
